@@ -498,6 +498,7 @@ def make_phonetic_event(shape):
                 s = f["selection"]
                 clauses.append(("selection_inside_list", z3.ULT(bv(s, 64), L) if is_sym(s) else s < L))
                 clauses.append(("auxiliary_is_the_typed_text", seq_eq(f["auxiliary"].elems, buf1)))
+                clauses.append(("nonempty_return_means_ongoing", ongb is True or L == 0))
                 clauses.append(("cover:list_returned", True))
                 if ev == "key":
                     # typed text grows by exactly the key's character, or stays (key without a character)
@@ -668,11 +669,13 @@ def session_search_phonetic(v):
             n = sug.get("len", 1) if sug.get("kind") == "full" else 1
             events = [{"op": "commit", "index": i} for i in range(n)] + [{"op": "finish"}, {"op": "backspace", "ctrl": True}]
             for ev in events:
-                steps = [{"op": "new", "ctx": 0, "config": cfg}] + [{"op": "key", "ctx": 0, "key": keys[ch], "sel": 0} for ch in t]
-                steps += [dict(ev, ctx=0), {"op": "get_state", "ctx": 0}, {"op": "key", "ctx": 0, "key": keys["k"], "sel": 0},
-                          {"op": "new", "ctx": 1, "config": cfg}, {"op": "key", "ctx": 1, "key": keys["k"], "sel": 0}]
-                scs.append({"steps": steps})
-                meta.append((t, en, ev))
+                # what comes next: a letter, or a key that has no character (keypad Enter) - on the idle context it must do what it does on a new one
+                for nxt in (keys["k"], 0x0E1C):
+                    steps = [{"op": "new", "ctx": 0, "config": cfg}] + [{"op": "key", "ctx": 0, "key": keys[ch], "sel": 0} for ch in t]
+                    steps += [dict(ev, ctx=0), {"op": "get_state", "ctx": 0}, {"op": "key", "ctx": 0, "key": nxt, "sel": 0},
+                              {"op": "new", "ctx": 1, "config": cfg}, {"op": "key", "ctx": 1, "key": nxt, "sel": 0}]
+                    scs.append({"steps": steps})
+                    meta.append((t, en, ev))
     out = run_replay_parallel(scs)
     for (t, en, ev), sc, r in zip(meta, scs, out):
         rr = r["results"]
@@ -693,7 +696,7 @@ def obl_phonetic_glue(check, max_n, budget_s=None):
     for ev in ("key", "backspace", "commit", "finish"):
         for n in range(0, max_n + 1):
             for sug in (True, False):
-                for m in ((0,) if n == 0 else (1, 3)):
+                for m in ((0, 1, 3) if n == 0 else (1, 3)):      # an idle method still holds the list of the last word
                     for k in ((1, 2, 3, 10) if ev in ("key", "backspace") and sug else (1,)):
                         if ev == "commit" and n == 0:
                             continue     # no list was returned: nothing to commit in contract
@@ -830,6 +833,10 @@ def shown_answer_search():
                 hists.append(("%r, then %r pressed with selection byte %d, then BackSpace" % (w, pc, sb), typ(w) + typ(pc, sel=sb) + [{"op": "backspace", "ctx": 0}], {}))
         hists.append(("%r, one more letter, BackSpace" % w, typ(w) + typ("s") + [{"op": "backspace", "ctx": 0}], {}))
         hists.append(("%r, then a key without a character (keypad Enter)" % w, typ(w) + [{"op": "key", "ctx": 0, "key": 0x0E1C, "sel": 0}], {}))
+        if len(w) > 1:
+            hists.append(("%r, a key without a character (keypad Enter), BackSpace" % w, typ(w) + [{"op": "key", "ctx": 0, "key": 0x0E1C, "sel": 0}, {"op": "backspace", "ctx": 0}], {"target": w[:-1]}))
+            hists.append(("%r, a key without a character twice, two BackSpaces, the erased letters typed again" % w,
+                          typ(w) + [{"op": "key", "ctx": 0, "key": 0x0E1C, "sel": 0}] * 2 + [{"op": "backspace", "ctx": 0}] * 2 + typ(w[-2:]) if len(w) > 2 else typ(w), {}))
         for learn in (1, 2):
             hists.append(("%r typed, candidate %d committed, %r typed again at once" % (w, learn, w), typ(w) + [{"op": "commit", "ctx": 0, "index": learn}] + typ(w), {"after_commit": True}))
             hists.append(("%r typed, candidate %d committed, another word typed and finished, %r typed again" % (w, learn, w),
@@ -844,9 +851,9 @@ def shown_answer_search():
         for name, h, fl in hists:
             steps = [{"op": "new", "ctx": 0, "config": cfg}] + h
             a = len(steps) - 1
-            steps += [{"op": "new", "ctx": 1, "config": fl.get("cfg2", cfg)}] + typ(w, ctx=1)
+            steps += [{"op": "new", "ctx": 1, "config": fl.get("cfg2", cfg)}] + typ(fl.get("target", w), ctx=1)
             scs.append({"steps": steps})
-            meta.append((name, w, a))
+            meta.append((name, fl.get("target", w), a))
     for (name, w, a), sc, r in zip(meta, scs, run_replay_parallel(scs)):
         rr = r["results"]
         if any("panic" in x for x in rr):
@@ -1070,6 +1077,19 @@ def make_userfile(shape):
             st.assume(z3.ULT(idx, 2))
             ctx["index"] = idx
             fn = prog.find_trait_fn("PhoneticMethod", "Method", "candidate_committed")
+            if ev == "commit2":
+                # two learning commits in a row (the word typed again in between), the environment free at each save
+                it.call_function(fn, [me, idx, cr])
+                ctx["io_mark"] = len(ctx.get("io_log", []))
+                ctx["writes_mark"] = ctx.get("writes", 0)
+                cur0 = pm_field(prog, pm, "selections")
+                ctx["sel_mark"] = [(k, tuple(v.elems)) for k, v in (cur0.entries if isinstance(cur0, SMap) else [])]
+                pm.fields[prog.structs["PhoneticMethod"].index("buffer")] = SString([0x61])
+                idx2 = st.sym_bv("commit_index2", 64)
+                st.assume(z3.ULT(idx2, 2))
+                ctx["index2"] = idx2
+                ctx["prev2"] = pm_field(prog, pm, "prev_selection")
+                return it.call_function(fn, [me, idx2, cr])
             return it.call_function(fn, [me, idx, cr])
         return run
 
@@ -1112,6 +1132,17 @@ def make_userfile(shape):
             after = [(k, tuple(v.elems)) for k, v in c["sel_map"].entries]
             same_sel = pm_field(prog, pm, "selections") is c["sel_map"] and after == c["before"]
             clauses.append(("reload_keeps_the_word_in_progress", bool(isinstance(shown_now, SVec) and len(shown_now.items) == 2 and list(buf) == [0x61] and same_sel)))
+        if ev == "commit2":
+            mark = c.get("io_mark", len(log))
+            second = log[mark:]
+            tried = any(n in ("fs_write", "open", "to_writer", "write_all", "to_string") for n, _ in second)
+            # a second choice that differs from the preselection is learned and its save is attempted, whatever became of the first save
+            cur2 = pm_field(prog, pm, "selections")
+            now = [(k, tuple(v.elems)) for k, v in (cur2.entries if isinstance(cur2, SMap) else [])]
+            changed2 = len(now) != len(c.get("sel_mark", [])) or any(a[0] is not b2[0] or len(a[1]) != len(b2[1]) or any(x is not y for x, y in zip(a[1], b2[1])) for a, b2 in zip(now, c.get("sel_mark", [])))
+            # whatever the second commit learned (the map in memory changed) is also put to the disk - whatever became of the first save
+            clauses.append(("every_learning_commit_attempts_its_save", (not changed2) or bool(tried)))
+            clauses.append(("cover:commit2", True))
         if ev == "update2":
             mark = c.get("io_mark", len(log))
             first, second = log[:mark], log[mark:]
@@ -1295,6 +1326,17 @@ def failed_save_native():
     for name, before, between in faults:
         steps = [{"op": "new", "config": cfg}] + before + typ("a") + [{"op": "commit", "index": 1}] + between + typ("ami") + [{"op": "commit", "index": 1}] + typ("a") + [{"op": "get_state"}]
         scs.append((name, {"steps": steps}))
+    # a save fails once (directory missing), the directory then appears: the next learned choice is saved and a new context knows both
+    late = {"steps": [{"op": "new", "ctx": 0, "config": cfg}, {"op": "remove_user_dir"}] + [dict(x, ctx=0) for x in typ("a")] + [{"op": "commit", "ctx": 0, "index": 1}, {"op": "create_user_dir"}]
+            + [dict(x, ctx=0) for x in typ("ami")] + [{"op": "commit", "ctx": 0, "index": 1}, {"op": "read_user_file", "name": store}, {"op": "new", "ctx": 1, "config": cfg}]
+            + [dict(x, ctx=1) for x in typ("ami")] + [{"op": "get_state", "ctx": 1}]}
+    rr = run_replay([late])[0]["results"]
+    if not any("panic" in x for x in rr):
+        sel = rr[-1].get("state", {}).get("prev_selection")
+        content = [x for x in rr if x.get("op") == "read_user_file"][0].get("content")
+        if sel != 1:
+            return ("a save that failed once: later choices are not saved", late, "user-data directory missing when 'a' was learned, created afterwards; 'ami' learned (candidate 1): the store on disk is %s; "
+                    "a new context typing 'ami' preselects candidate %s" % (content, sel))
     for (name, sc), r in zip(scs, run_replay([x[1] for x in scs])):
         rr = r["results"]
         if any("panic" in x for x in rr):
@@ -1399,7 +1441,7 @@ def reload_midword_native():
 
 
 def obl_userfiles(check, budget_s=None):
-    shapes = [dict(event="new"), dict(event="update"), dict(event="commit"), dict(event="update2")]
+    shapes = [dict(event="new"), dict(event="update"), dict(event="commit"), dict(event="update2"), dict(event="commit2")]
     check.bounds["userfile_faults"] = dict(events="context creation (PhoneticMethod::new), update_engine, candidate_committed",
                                            environment="every file-system and serde_json call may fail or succeed independently (over-approximates absent, empty, truncated-at-any-byte, wrong-shape files, missing or read-only directory)")
     records, errors, summ = msym.run_shapes(check, "userfile_faults", shapes, make_userfile, budget_s=budget_s)
@@ -1441,7 +1483,7 @@ def obl_userfiles(check, budget_s=None):
                 if worst[st] > worst[status]:
                     status = st
                 continue
-        if clause == "failed_save_loses_at_most_that_choice":
+        if clause in ("failed_save_loses_at_most_that_choice", "every_learning_commit_attempts_its_save"):
             found = failed_save_native()
             if found:
                 fname, sc, obs = found
